@@ -498,6 +498,26 @@ func modelSprintf(i *interpreter, fr *frame, args []value) (value, bool) {
 	}
 	format, ok := args[0].(string)
 	if !ok {
+		// a symbolic text used as the format itself (fmt.Errorf(userText)):
+		// without arguments and without a % it is copied verbatim
+		if ss, isSym := args[0].(*symStr); isSym && (args[1] == nil || len(args[1].([]value)) == 0) {
+			b := i.path.B
+			for _, r := range ss.r {
+				switch c := r.(type) {
+				case rune:
+					if c == '%' {
+						panic(pathAbort{abortUnsupported, "Sprintf with symbolic format containing %"})
+					}
+				case *Sym:
+					if i.decideT(b.Eq(c.T, b.BVC(c.T.Sort.W, '%'))) {
+						panic(pathAbort{abortUnsupported, "Sprintf with symbolic format containing %"})
+					}
+				default:
+					panic(pathAbort{abortUnsupported, "Sprintf with symbolic format"})
+				}
+			}
+			return ss, true
+		}
 		panic(pathAbort{abortUnsupported, "Sprintf with symbolic format"})
 	}
 	var vargs []value
